@@ -5,6 +5,13 @@
 use fv_harness::common::*;
 use font_types::{F26Dot6, F2Dot14, Fixed, Int24, Scalar, Uint24};
 
+#[path = "c15/float.rs"]
+mod float;
+#[path = "c15/ord.rs"]
+mod ord;
+#[path = "c15/scalars.rs"]
+mod scalars;
+
 fn rha_q(p: i128, q: i128) -> i128 {
     // exact p/q rounded half away from zero, q != 0
     let (p, q) = if q < 0 { (-p, -q) } else { (p, q) };
@@ -200,4 +207,9 @@ fn run(cfg: &Config, s: &mut Session) {
     }
     exhaustive16(s);
     exhaustive24(s, cfg.thorough());
+    // float conversions + OtRound, ordering / equality / hashing, remaining scalar types
+    // (each part draws from its own generator so that adding cases to one does not shift the others)
+    float::run(cfg, s, &mut Rng::new(cfg.seed ^ 0xF10A7));
+    ord::run(cfg, s, &mut Rng::new(cfg.seed ^ 0x0DD));
+    scalars::run(cfg, s, &mut Rng::new(cfg.seed ^ 0x5CA1A));
 }
